@@ -117,6 +117,10 @@ def run(tier, rep):
         open(lst, 'w').write('\n'.join(chunks[i]) + '\n')
         out = os.path.join(d, 'out%d.json' % i)
         r = subprocess.run([exe, '--list', lst, '--root', root, '--out', out] + (['--modes-tree', modes_tree] if i == 0 else []), timeout=3000, stdout=subprocess.PIPE, stderr=subprocess.PIPE, text=True)
+        if r.returncode == 77 and os.path.exists(out + '.crash'):
+            txt = open(out + '.crash').read().split('\n', 1)
+            return {'evaluations': 0, 'nontrivial': 0, 'datasets': 0, 'cdf_lines': 0, 'samples': [], 'crashed': True,
+                    'violations': [{'key': 'crash:' + txt[1].split(' ')[0], 'text': 'the library killed the process (%s) while sampling %s' % (txt[0], txt[1])}]}
         if r.returncode != 0:
             raise SystemExit('HARNESS-ERROR: c14 exited %d %s' % (r.returncode, r.stderr[-500:]))
         return json.load(open(out))
@@ -136,6 +140,12 @@ def run(tier, rep):
             if v['key'].startswith('ga:mode:'):
                 rep.violation(v['key'], v['text'])
                 continue
+            if v['key'].startswith('long:'):
+                rep.violation('ga:long-history' if v['key'] == 'long:history' else 'ga:' + v['key'], v['text'])
+                continue
+            if v['key'].startswith('select:'):
+                rep.violation('ga:' + v['key'].replace(' ', '_'), v['text'])
+                continue
             if v['key'].startswith(('reuse:', 'crash:')):
                 kind = v['key'].split(':')[0]
                 rep.violation('ga:%s' % kind if kind == 'crash' else 'ga:reuse:%s' % v['key'].rsplit(':', 1)[-1], v['text'])
@@ -143,7 +153,7 @@ def run(tier, rep):
             k = v['key'].split(':', 1)
             fam = k[0].split('_')[0] + ('_' + k[0].split('_')[1] if not k[0].split('_')[1].startswith('a') else '')
             rep.violation('ga:%s:%s' % (fam, k[1]), v['text'])
-    if ds != len(names):
+    if ds != len(names) and not any(x.get('crashed') for x in results):
         raise SystemExit('HARNESS-ERROR: %d of %d datasets processed' % (ds, len(names)))
     rep.coverage.update({
         'evaluations': ev, 'distinct_nontrivial': nt, 'datasets': ds, 'datasets_the_encoder_cannot_write': skipped, 'cdf_lines_decoded': ln,
